@@ -40,6 +40,16 @@ Theorem C20_escape_invertible : forall cs, unescape_chars (escape_chars cs) = cs
 Proof. exact unescape_escape. Qed.
 Print Assumptions C20_escape_invertible.
 
+(* the escape set is the one the source has now (Gen/MdTables.v): it contains every character that begins or ends inline
+   markup for the reader, and only ASCII punctuation (the reader takes a backslash before anything else literally) *)
+Theorem C20_escape_set_covers_inline_syntax :
+  forall c, In (code_of c) md_inline_significant -> needs_escape c = true.
+Proof. exact escape_set_covers_inline_syntax. Qed.
+Print Assumptions C20_escape_set_covers_inline_syntax.
+Theorem C20_escape_set_is_punctuation :
+  forall n, In n WZ.Gen.MdTables.md_escape_set -> (33 <= n <= 47 \/ 58 <= n <= 64 \/ 91 <= n <= 96 \/ 123 <= n <= 126).
+Proof. exact escape_set_is_punctuation. Qed.
+Print Assumptions C20_escape_set_is_punctuation.
 Theorem C20_trim_decompose :
   forall p cs, existsb (fun c => negb (p c)) cs = true ->
   take_while p cs ++ trim_with p cs ++ rev (take_while p (rev cs)) = cs.
